@@ -1695,6 +1695,15 @@ def m_type(interp, x, *a):
 
 
 def m_ndarray_setflags(interp, arr, *a, **k):
+    # write protection is part of the semantics (an object may freeze an array it shares with its caller): applied for real
+    if isinstance(arr, np.ndarray):
+        fw = interp.forward.get(id(arr))
+        if fw is not None and isinstance(fw[1], np.ndarray):
+            fw[1].setflags(*a, **k)
+        try:
+            arr.setflags(*a, **k)
+        except ValueError as e:
+            raise PyRaise(e)
     return None
 
 
